@@ -1,4 +1,4 @@
-"""The exception-handling skeleton of the request-decoding pipeline  ->  Gen/Pipeline.v   (C10)
+"""The exception-handling skeleton of the request-decoding pipeline  ->  Gen/ReqPipe.v   (C10)
 
 For every function of the modelled pipeline the translator reads, from the *source text*:
   * every ``try`` statement, in source order: the classes each ``except`` clause names
@@ -393,7 +393,7 @@ def generate(repo):
     if not spyne.__file__.startswith(repo.rstrip('/') + '/'):
         raise TranslateError('spyne imported from %s, not from %s' % (spyne.__file__, repo))
     t = Translator()
-    out = ['(* GENERATED by harness/translate/pipeline.py from the spyne sources. Do not edit. *)',
+    out = ['(* GENERATED by harness/translate/reqpipe.py from the spyne sources. Do not edit. *)',
            'From SpyneV Require Import C10.Exn.', 'Open Scope Z_scope.', '']
     # class hierarchy
     out.append('(* proper ancestors among the modelled classes, from the live __mro__ *)')
@@ -436,4 +436,4 @@ def generate(repo):
     out.append('Definition get_in_object_steps : list pstep := %s.' % glist(ss['get_in_object']))
     out.append('Definition get_out_object_guarded : bool := %s.' % ('true' if ss['get_out_object_guarded'] else 'false'))
     out.append('Definition handle_rpc_steps : list wstep :=\n  %s.' % glist(['\n    ' + x for x in t.wsgi_steps()]))
-    return {'Pipeline.v': '\n'.join(out) + '\n'}
+    return {'ReqPipe.v': '\n'.join(out) + '\n'}
